@@ -17,6 +17,9 @@ class Ctx:
     env = None          # current Env
     installed = False
     hot_names = frozenset()
+    hot_substr = ()          # ... or any function whose name contains one of these
+    hot_hold_p = 0.0         # probability that a task entering a hot line is held back until OTHER tasks have executed
+                             # a few hot lines (or a simulated time-out passes): lines racing on one resource up against each other
     fs = None
     chunker_call_limit = None
     chunker_calls = 0
@@ -86,6 +89,30 @@ class SimDateTime(_dt.datetime):
     def now(cls, tz=None):
         d = cls.utcnow()
         return d if tz is None else d.replace(tzinfo=_dt.timezone.utc).astimezone(tz)
+
+
+import pathlib as _pathlib
+
+
+class SimRepoPath(type(_pathlib.Path())):
+    """pathlib.Path as the repository layer sees it: write_bytes() is what it is in the standard library -
+    open for writing (the file is empty from that instant), then write - with a scheduling point in
+    between, so another thread or client can observe the truncated file; reads are scheduling points too."""
+
+    def write_bytes(self, data):
+        view = memoryview(data)
+        with open(self, mode='wb') as f:
+            s = CTX.s
+            if s is not None:
+                s.yield_()
+            return f.write(view)
+
+    def read_bytes(self):
+        s = CTX.s
+        if s is not None:
+            s.yield_()
+        with open(self, mode='rb') as f:
+            return f.read()
 
 
 class _ModProxy:
@@ -188,9 +215,21 @@ def _on_line(code, line):
     if s.events is not None and _TRACE_LINES:
         s.events.append(f'line {code.co_name}:{line} {s.cur().name if s.cur() else None}')
     hot = CTX.hot_names
-    if hot and s.hot_p and code.co_name in hot and s.cur() is not None:
+    if (hot or CTX.hot_substr) and s.hot_p and s.cur() is not None and (
+            code.co_name in hot or any(x in code.co_name for x in CTX.hot_substr)):
         # focus: pre-empt much more often inside the functions the property is about
-        if s.rng.random() < s.hot_p:
+        s.hot_counter = getattr(s, 'hot_counter', 0) + 1
+        r = s.rng.random()
+        if r < CTX.hot_hold_p and not getattr(s.cur(), 'held', False) and len(s.tasks) > 1:
+            cur = s.cur()
+            cur.held = True
+            target = s.hot_counter + s.rng.randrange(1, 12)
+            s.counters['hot_hold'] += 1
+            try:
+                s.block_until(lambda: s.hot_counter >= target, timeout=s.rng.choice([0.001, 0.05, 1.0, 20.0]), what='hot-hold')
+            finally:
+                cur.held = False
+        elif r < s.hot_p:
             s.preemptions += 1
             s.yield_()
         return
@@ -271,6 +310,7 @@ def install_once():
     BS.time = simtime
     R.datetime = SimDateTime
     S3C.datetime = SimDateTime
+    R.Path = SimRepoPath
     # backoff measures max_time with datetime.datetime.now(): the simulated wall clock, like every other clock
     import backoff._async as BA
     BA.datetime = _ModProxy(_dt, datetime=SimDateTime)
